@@ -485,7 +485,7 @@ func gen(c *harness.C) []harness.Case {
 		if len(sc.Threads) <= 2 {
 			b = b2
 		}
-		if strings.HasPrefix(sc.Name, "s14-idle-") && sc.Name != "s14-idle-8-epochs-then-first-send" || strings.HasPrefix(sc.Name, "s15-held-") && sc.Name != "s15-held-3x5-interleaved" || sc.Name == "s16b-gc-due||tick;tick;start;receive" {
+		if strings.HasPrefix(sc.Name, "s14-idle-") && sc.Name != "s14-idle-8-epochs-then-first-send" || strings.HasPrefix(sc.Name, "s15-held-") && sc.Name != "s15-held-3x5-interleaved" || sc.Name == "s16b-gc-due||tick;tick;start;receive" || strings.HasPrefix(sc.Name, "s17-") {
 			continue
 		}
 		if strings.HasPrefix(sc.Name, "s12-long-lived-topic") {
